@@ -1,64 +1,9 @@
 #!/usr/bin/env python3
-"""Regenerates MANIFEST.json from the table below (kept next to the checks so the two cannot drift)."""
+"""Regenerates MANIFEST.json from manifest_data.json ({"claimed": {id: [level text, level note]}, "na": {id: reason}})."""
 import json
-CLAIMED = {
- 'C08': ('the single function through which every formula result reaches a cell (Model::set_cells_with_result), for each kind of formula cell and a result that is any f64 or an array of up to 2x2 of any f64: afterwards no cell of the block stores NaN or an infinity (scalar and array paths)',
-         'outside: whether a built-in function can produce a non-finite value (the function library), numbers typed by the user or read from files; mechanism-level claim anchored at set_cells_with_result'),
- 'C31': ("the spill write step (set_cells_with_result on a dynamic anchor, result 1x1..2x2 of arbitrary finite numbers, symbolic neighbours): either every cell of the m x n block holds its element (anchor records n x m, spill cells name the anchor) and nothing outside is written, or - exactly when a block cell holds user content or another formula's spill, or the block leaves the grid - the anchor shows #SPILL! and no neighbour changes; user content is never overwritten",
-         'outside: staleness across evaluation passes, undo, structural edits, paste (histories through the evaluator); results larger than 2x2'),
- 'C11': ('panic-freedom, decided over every ASCII string up to the bound: the real formula lexer (A1 and R1C1 mode, en locale built by hand, en language with concrete boolean/error names) always reaches EOF; the number-format lexer/parser and date-format detector; column_to_number, parse_reference_a1/r1c1, is_valid_identifier, is_valid_column, quote_name. Every overflow / index / unwrap panic path is a query',
-         'outside: the formula parser, formula completion, set_user_input, the number formatter (float to digits), non-ASCII text, strings longer than 3 (lexers) / 4 (helpers), other locales and languages'),
- 'C30': ('style pools: any two styles from the symbolic attribute space interned one after the other read back field-for-field, the first still reads back after the second, different styles never share an index; any three number formats (built-in, custom, text) keep their own codes; two cells styled through Model::set_cell_style read back through get_style_for_cell',
-         'outside: font names/colours, borders, named styles, row/column style plumbing above the pool (the row/column records are under C29), import/export'),
- 'C19': ('the recogniser parse_number on every ASCII string up to the bound against a reference scanner written from the property: accepted => number shape with separators followed by multiples of three digits; value = sign x f64 of exactly the scanned digits; grouped/scientific flags; every ordinary well-formed number is accepted. parse_formatted_number against that kernel on the stripped text for percent, the three currency positions and plain numbers: value with the right sign (incl. -$ with an exponent), /100 for percent, and a format of the stated kind',
-         'outside: the numeric value of a digit string (f64::from_str: validity = its documented grammar, value uninterpreted), typed dates (chrono), white space, non-ASCII currency symbols/separators (the real fr/de group separators), what Model::set_user_input does with the result'),
- 'C16': ('cut: to_string_moved on reference and range nodes with symbolic formula cell, target, cut area and paste offset - a reference to a cut cell points to where it went (same $ flags, #REF! off the grid), a range moves only if both corners are cut, everything else keeps its cell and gains the source sheet name when the formula changes sheet; ref_is_in_area = the rectangle test over the whole grid; copy: the A1 printer at the target cell shifts exactly the relative parts by the paste offset. Expected texts are built from $, number_to_column and the row number, not from the printer under test',
-         'outside: the moved-formula printer for operators/functions/arrays (parenthesisation, separators), clipboard orchestration, CF ranges and defined names under cut, values; coordinates within 120 rows x 30 columns'),
- 'C34': ('F4 rewrite kernel (next_state, cycle_endpoint, cycle_token_text): on every reference/range token text assembled from symbolic sheet prefix, $ markers, letters of either case and digits, one F4 equals the cycle of the property (A1->$A$1->A$1->$A1, column-only/row-only toggle, letters upper-cased, prefix byte-identical) and four F4 return the upper-cased original; next_state has period exactly four; on any ASCII text <=4 (<=6 thorough) only $ markers and letter case change',
-         'cycle_reference with the real tokenizer is decided on =<ref or range, optional sheet prefix>+<ref> with symbolic $ markers and every cursor/selection: exactly the touched references are cycled and the returned cursor follows the documented rule; outside: other formula shapes for the cursor rule, non-ASCII text'),
- 'C01': ('inductive step on 19 operation kinds (set_columns_width/hidden, set_rows_height/hidden, frozen rows/columns, grid lines, sheet colour, hide/unhide/delete/new/move sheet, insert/delete rows and columns, move rows/columns): from an arbitrary cell-free workbook (<=2 sheets with a symbolic column descriptor and row record each, or <=3 sheets with symbolic visibility) `op; undo` restores every listed observable - sheet names/order/visibility/colour/ids, frozen panes, grid lines, links, and what column x / row y show (width, hidden, style) at symbolic probes',
-         'outside: every operation whose diff carries cell content (input, arrays, clears, cell styles, borders, named styles, paste, autofill, defined names, conditional formats, rename/duplicate sheet, locale/timezone/name/theme) and every structural operation on a sheet that holds cells (parser, set_user_input, evaluator); selection/view state is not compared; pre-state built directly (intercepted Model::from_workbook), history built by the operation itself'),
- 'C02': ('same family: `op; undo; redo` shows exactly what `op` showed; History alone: any sequence of <=5 push/undo/redo calls behaves as a cursor over the operation list (push truncates after the cursor, undo/redo return the operation they cross, stack sizes = cursor position)',
-         'outside: every operation whose diff carries cell content (input, arrays, clears, cell styles, borders, named styles, paste, autofill, defined names, conditional formats, rename/duplicate sheet, locale/timezone/name/theme) and every structural operation on a sheet that holds cells (parser, set_user_input, evaluator); selection/view state is not compared; pre-state built directly (intercepted Model::from_workbook), history built by the operation itself'),
- 'C03': ("same family: a second model of the same workbook that applies the primary's outgoing queue entry by entry (the loop of apply_external_diffs; op, optionally undone, optionally redone) shows the same observables",
-         'outside: every operation whose diff carries cell content (input, arrays, clears, cell styles, borders, named styles, paste, autofill, defined names, conditional formats, rename/duplicate sheet, locale/timezone/name/theme) and every structural operation on a sheet that holds cells (parser, set_user_input, evaluator); selection/view state is not compared; pre-state built directly (intercepted Model::from_workbook), history built by the operation itself; the bitcode encoding of the queue is cut out (identity)'),
- 'C04': ('same 18 failing-capable operations with arguments unconstrained within |a|,|b| <= 4 000 000, sizes in {valid, negative, NaN, +inf}, nonexistent sheets, history holding one entry on the undo or the redo side: whenever the call returns Err the whole workbook (derived PartialEq, every field), both history stacks and the send queue are unchanged',
-         'outside: every operation whose diff carries cell content (input, arrays, clears, cell styles, borders, named styles, paste, autofill, defined names, conditional formats, rename/duplicate sheet, locale/timezone/name/theme) and every structural operation on a sheet that holds cells (parser, set_user_input, evaluator); selection/view state is not compared; pre-state built directly (intercepted Model::from_workbook), history built by the operation itself; spans/counts of range operations <=3 lines (the operations loop over them)'),
- 'C28': ('after each of the 19 operations, its undo and its redo, and after set_selected_sheet/cell/range and arrow up/left/down/right with unconstrained arguments (Ok or Err): selected sheet < sheet count, selected cell inside the rectangle spanned by the selected range, all inside the grid',
-         'outside: page up/down, area selecting, navigate-to-edge and range expansion (pixel sums over float sizes), duplicate_sheet, sheets with cells; arrow down/right start within 3 lines of the top-left visible cell'),
- 'C12': ('(a) one reference: stringify_reference under row/column insertion (all four $ combinations, any in-grid context cell/target/position/count, same or other sheet) equals the insertion map on cells, off-grid => #REF!; (b) ranges: the tree printer to_string_displaced on Node::RangeKind - both corners follow the map (interior insertion grows the range), whole-column/whole-row ranges stay, other-sheet edits leave it alone (coordinates <=120 rows x 30 columns quick, whole grid thorough); (c) the real Model::insert_rows/insert_columns on a cell-free sheet: column descriptors, row records and hyperlinks land on the shifted line (<=2 descriptors/records, 1 link, any position/count); (d) cells with content: the same real Model operation on a sheet holding one cell at a symbolic position - a number (1.5, 123), a boolean, a shared string, an empty styled cell or the quote-prefixed text \'123, default or bold style, next to a styled column - keeps its content, value type and style at the mapped position and nothing else appears (move_cell -> display text -> set_user_input -> number recogniser / booleans / errors / shared strings / style pool, executed from the MIR; en and de locale)',
-         'outside: formulas and CSE arrays in cells (parser/evaluator), cell contents other than the six kinds above, defined names, spills, recomputed values, the parser that produced the node; oracle (a)/(b) trusts the same corner printer with no edit to render the expected coordinates'),
- 'C13': ('(a) one reference under row/column deletion: deleted band => #REF!, after => shifted, before => unchanged; (b) ranges through to_string_displaced: each corner by the deletion map, corner on a deleted line => #REF!, whole-column/row ranges untouched; (c) real Model::delete_rows/delete_columns on cell-free sheets: descriptors (cases A-F), row records and links outside the band keep their attributes at the shifted line, links inside the band are dropped; (d) cells with content under deletion: the same real Model operation on a sheet holding one cell at a symbolic position - a number (1.5, 123), a boolean, a shared string, an empty styled cell or the quote-prefixed text \'123, default or bold style, next to a styled column - keeps its content, value type and style at the mapped position and nothing else appears (move_cell -> display text -> set_user_input -> number recogniser / booleans / errors / shared strings / style pool, executed from the MIR; en and de locale)',
-         'outside: formulas in cells (parser/evaluator), cell contents other than the six kinds listed, recomputed values, defined names'),
- 'C14': ('(a) displace_cf_row/col: insert k at p then delete k at p is the identity on every coordinate not pushed off the grid; (b) real Model::insert_columns;delete_columns and insert_rows;delete_rows on cell-free sheets: every column descriptor / row record read at a symbolic probe and the hyperlink map are unchanged, descriptors stay well-formed; (c) insert;delete on a sheet holding one cell of the six content kinds of C12(d): the cell record (content, type, style) is unchanged',
-         'outside: formulas in cells, formula text, computed values (parser/evaluator), contents other than the six kinds'),
- 'C15': ('(a) single row/column move rewrites references by the move permutation (stringify_reference RowMove/ColumnMove, whole grid); (b) chain of single moves on CF coordinates = block permutation (block <=2 quick / <=3 thorough); (c) real Model::move_rows_action / move_columns_action on cell-free sheets: row records, observable column attributes (width when shown, hidden, style) and hyperlinks land at the block-permuted line (block <=3 rows / <=2 columns, |offset| <=2 quick; <=3,<=3 thorough); (d) block moves of rows (block <=2, |offset| <=2) and single-column moves on a sheet holding one cell of the six content kinds of C12(d): content, type and style arrive at the permuted position',
-         'outside: formulas in cells, array-formula split checks (can_move_*), ranges under moves, values; column widths are the concrete values 8/13/21/34 (exact under the x9,/9 pixel conversion the move performs)'),
- 'C22': ('column letters <-> numbers bijective (one symbolic i32 over all values; every ASCII string of length 0..=4); every valid sheet name over printable ASCII (<=2 chars quick, <=3 thorough), quoted as quote_name quotes it and followed by !A1, is read back by the real formula lexer as a reference into exactly that sheet',
-         'outside: A1/R1C1 print->parse of references and ranges through the parser (the A1 printer itself is checked against an independent text builder under C16), longer and non-ASCII names'),
- 'C27': ('column descriptors stay sorted and disjoint (min<=max) and row records unique after one Model-level structural edit (insert/delete any position and count, block move) and after each Worksheet attribute setter (ids C27.* inside the C29 harnesses), from an arbitrary well-formed in-grid layout (inductive step, <=2 descriptors/records)',
-         'outside: sheet names/ids, cells inside the grid, style/shared-string/formula indices, spill anchors, defined names; descriptors are not required to stay inside the grid (the property does not say so)'),
- 'C29': ('frame + effect conditions of set_column_hidden/style/width, delete_column_style, set_row_hidden/style/height at a symbolic probe column/row from an arbitrary well-formed layout (<=2 descriptors / <=2 row records): exactly the targeted attribute of exactly the targeted line changes; width/height kept by hide/unhide/style',
-         'outside: exact float value of a width read back through x/9*9 (setters that do this arithmetic run on the concrete widths 8/13/21/34), Model-level wrappers (sheet lookup)'),
- 'C33': ('(a) conditional-format coordinates move by exactly the insertion/deletion/move maps stated for cells (displace_cf_row/col), any in-grid i32, any sheet ids; (b) hyperlinks: the real Model::insert_*/delete_*/move_*_action on a sheet with two links at symbolic cells - each link key moves by the same map, links in a deleted band are dropped, nothing else appears',
-         'outside: CF rule formulas (parser), sqref strings, clear-removes-link and its undo, cut/paste orchestration'),
-}
-NA = {
- 'C05': 'evaluator (recursive evaluate_node_in_context over parsed trees, 495 built-ins, HashMap caches) has no bounded encoding within reach',
- 'C06': 'needs the whole parse->evaluate pipeline plus f64 parse/print, which are uninterpreted in this encoding',
- 'C07': 'quantifies over whole workbooks and evaluation passes; evaluator not encodable',
- 'C09': 'tree->String->tree through the recursive-descent parser and lexer with language tables; symbolic trees of useful depth degenerate to enumeration',
- 'C10': 'same pipeline as C09 across five language tables loaded from bitcode data',
- 'C17': 'sheet rename/duplicate rewrite every stored formula through parser and printer',
- 'C18': 'display -> set_user_input round trip runs the number formatter (float->text) and the input interpreter end to end',
- 'C20': 'subject is decimal rendering of f64 (format!("{:.*e}"), ryu); float-to-decimal is not encodable and cannot be left uninterpreted because it is the property',
- 'C21': 'tried and withdrawn: the conversion functions call chrono (NaiveDate::from_ymd_opt, Add<TimeDelta>, num_days_from_ce, Datelike). mirsym executes them from chrono\'s own MIR (dumped with -p chrono; NonZero, trait-argument dispatch and a division lemma for the 64-bit /86400 were added), but the assertion query for a ONE-year slice of serials takes ~220 s and the encoding then disagrees with the native run (caught by the per-path native validation), so no sound bounded claim is within reach; the whole range would need ~8000 such slices',
- 'C23': 'finite table facts read from language.bin via bitcode; nothing symbolic to decide, enumerating the table is not this technique',
- 'C24': 'zip + XML writer/reader over whole workbooks; I/O-bound byte streams of unbounded length',
- 'C25': 'same reader on arbitrary bytes (zip inflate, XML tokenizer in third-party crates); loops grow with input',
- 'C26': 'bitcode encode/decode of the whole workbook plus re-parse of every formula on load',
- 'C32': 'defined names are re-parsed by three different parsers on every structural change; parser-bound like C09/C17',
-}
+_D = json.load(open('/verif/manifest_data.json'))
+CLAIMED = {k: tuple(v) for k, v in _D['claimed'].items()}
+NA = _D['na']
 def main():
     import sys
     claimed = [c for c in sorted(CLAIMED) if c in sys.argv[1:]] if len(sys.argv) > 1 else sorted(CLAIMED)
